@@ -11,6 +11,8 @@ from insights.contrib.toposort import toposort
 
 def oracle(chk, world, r, case):
     b = r.broker
+    if case.get("mode") == "loaded-archive-history" and case.get("_replaying"):
+        history_oracle(chk, world, case)
     if r.error is not None:
         chk.failure("evaluation raised %r" % (r.error,), case)
         return
@@ -31,8 +33,12 @@ def oracle(chk, world, r, case):
         pos_fired.setdefault(c, i)
     in_eval = set(r.order_ids)
     for c in att:
-        for d in dr.get_dependencies(world.comps[c]):
-            d = world.ids.get(d)
+        # the dependencies DECLARED for c (the harness's own record of what it declared, on the decorator or on the
+        # component type), together with what the engine reports (late registrations add edges there)
+        sc = world.spec[c]
+        declared = set(x for it in sc["items"] for x in ([it[1]] if it[0] == "o" else it[1])) | set(sc["optional"])
+        declared |= set(world.ids.get(d) for d in dr.get_dependencies(world.comps[c]))
+        for d in sorted(x for x in declared if x is not None):
             if d is None or d == c or d not in in_eval:
                 continue
             if not (d in pos_fired and c in pos_fired and pos_fired[d] < pos_fired[c]):
@@ -43,6 +49,20 @@ def oracle(chk, world, r, case):
             chk.failure("seeded value of %d changed: %s -> %r" % (cid, v, b.instances.get(comp)), case)
         if cid in att or cid in bodies:
             chk.failure("seeded component %d was recomputed" % cid, case)
+
+
+def history_oracle(chk, world, case):
+    """the evaluation of a loaded archive that preceded the recorded evaluation (dr_world.loaded_archive_history)"""
+    h = getattr(world, "history", None)
+    if not h:
+        return
+    err, before, after = h
+    if err is not None:
+        chk.failure("evaluation of a loaded archive raised %r" % (err,), case)
+    if after != before:
+        diff = sorted(k for k in before if before[k] != after.get(k))
+        chk.failure("evaluating a loaded archive changed the declared edges of %s: %s -> %s (every later evaluation "
+                    "in the process sorts on them)" % (diff, [before[k] for k in diff], [after.get(k) for k in diff]), case)
 
 
 def run(chk):
@@ -105,6 +125,38 @@ def run(chk):
                 chk.failure("run_incremental raised %r" % (ex,), {"spec": W.strip(spec), "seeds": seeds, "targets": targets,
                                                                     "order": None, "store_skips": ss, "dropped": dropped, "mode": "incremental"})
             chk.count("incremental-schedule")
+        if idx % 5 in (0, 4):
+            # history: an evaluation of a LOADED archive (SerializedArchiveContext in the broker, components with
+            # dependencies already present, the graph handed over the way insights._run / get_subgraphs do it: its
+            # values are the registry's own edge sets) followed by ordinary evaluations.  The first one must leave the
+            # declared edges of every component as they are; the ordinary evaluations after it are held to the oracle.
+            keys = list(graph)
+            with_deps = [world.ids[c] for c in keys if graph[c]]
+            pre = list(seeds)
+            for cid in rng.sample(with_deps, min(len(with_deps), rng.randint(1, 2))):
+                if cid not in [x for x, _ in pre]:
+                    pre.append((cid, "A%d" % (7000 + cid)))
+            sset = set(x for x, _ in pre)
+            nested = any(world.ids.get(d) in sset for c in keys if world.ids[c] in sset for d in graph[c] if d in graph)
+        if idx % 5 in (0, 4) and nested:
+            # a loaded component that directly depends on another loaded component of the same graph: dr.run's pruning
+            # loop looks up a key it has just removed (KeyError out of dr.run, nothing is evaluated).  No archive the
+            # project writes has that shape (only registry points are persisted and they depend on their
+            # implementations only), and the property speaks about evaluations, so the shape is left out here.
+            chk.count("loaded-archive-history:skipped(loaded component depends on a loaded one)")
+        elif idx % 5 in (0, 4):
+            shared = rng.choice(["deps", "group", "delegate"])
+            hcase = {"spec": W.strip(spec), "seeds": seeds, "targets": targets, "order": None, "store_skips": ss,
+                     "dropped": dropped, "mode": "loaded-archive-history", "pre": pre, "shared": shared}
+            world.history = W.loaded_archive_history(world, graph, pre, ss, shared)
+            history_oracle(chk, world, hcase)
+            chk.count("loaded-archive-history:" + shared)
+            graph_after = world.graph_for(targets)
+            if dropped is not None:
+                graph_after.pop(world.comps[dropped], None)
+            for mode in ("run", "components"):
+                r = W.evaluate(world, seeds, ss, graph_after, mode=mode)
+                oracle(chk, world, r, dict(hcase, order=r.order_ids, eval_mode=mode))
         # a later registration changes the edges among the SAME components: the next evaluation must see it
         cands = world.late_candidates(set(world.ids[k] for k in graph))
         if cands and rng.random() < 0.6:
